@@ -948,7 +948,11 @@ class ICalendarFile(File):
                 except KeyError:
                     pass
                 else:
-                    if p is not None:
+                    if isinstance(p, list):
+                        # The property occurs more than once
+                        for v in p:
+                            yield v.to_ical()
+                    elif p is not None:
                         yield p.to_ical()
             else:
                 raise AssertionError(f"segments: {segments!r}")
